@@ -40,7 +40,30 @@ def rule_w1(repo, col):
         elif o and o[-1][1]:
             rows.setdefault("one", set()).add((p.value, o[-1][0], tuple(conds)))
     if "zero" not in rows or "one" not in rows:
-        raise AnalysisError("add_atom: weight-propagation branches not found")
+        # the decision may have been moved into a helper method (inlining bound 1): returns of TRUE/FALSE under `self.<helper>(.., probability, ..)`
+        import re as _re
+
+        helpers = {}
+        for p in paths:
+            if p.end != "return" or p.value not in ("self.FALSE", "self.TRUE"):
+                continue
+            for s_, t, _ in p.conds:
+                mm = _re.match(r"^self\.(\w+)\((.*)\)$", s_)
+                if mm and t and _re.search(r"\b%s\b" % _re.escape(pr), mm.group(2)) and mm.group(1) in f.cls.methods:
+                    helpers.setdefault(mm.group(1), set()).add(p.value)
+        if not helpers:
+            raise AnalysisError("add_atom: weight-propagation branches not found")
+        for hname, vals in sorted(helpers.items()):
+            h = f.cls.methods[hname]
+            hs = norm(h.node)
+            hp = [x for x in h.params[1:]]
+            validated = any(("self.semiring.value(%s)" % x) in hs for x in hp)
+            by_semiring = "self.semiring.is_zero(" in hs and "self.semiring.is_one(" in hs
+            col.decide("W1", m, h.node, validated and by_semiring, "the weight decision in %s goes through semiring.value() and is_zero/is_one" % hname,
+                       "add_atom fixes an atom to %s through %s, which decides from the raw weight%s: the decision must be taken by the semiring (is_zero / is_one of "
+                       "self.semiring.value(probability)), which also validates the range of the weight and is correct for every semiring representation"
+                       % (sorted(vals), h.qualname, "" if validated else " without calling self.semiring.value()"), construct="def %s: weight decision" % hname, function=h.qualname)
+        return
     for kind, want in (("zero", "self.FALSE"), ("one", "self.TRUE")):
         for val, test, conds in rows[kind]:
             ok = val == want and ("self.semiring.value(%s)" % pr) in test and ("%s == self.WEIGHT_NEUTRAL" % pr, False) in conds and ("self.semiring", True) in conds
